@@ -27,6 +27,10 @@ abbrev O := List (Str × JVal)
 structure World where
   fetch : Str → Option (O × U)
   parse : Str → Option U
+  /-- the link list `GetMarkup(key, "mediaType")` reports for an object (`[]` when the body is
+      absent or unrenderable); the renderers themselves are modelled in Model/Hypertext.lean etc.
+      and the numbering is C12's subject — here only the list is needed (UI model) -/
+  links : O → Str → List Str := fun _ _ => []
 
 /-- `obj.GetURL("id")`: absent ⇒ no id; unparsable / wrong type ⇒ error. -/
 def getId (w : World) (o : O) : Except Unit (Option U) :=
@@ -142,6 +146,7 @@ structure ActorM where
   id : Option U
   name : Obj.R Str        -- ok / absent / wrong
   posts : Except Err CollM
+  bioLinks : List Str := []
   obj : O                  -- ghost: the JSON this actor was built from
 
 def newActorFromObject (w : World) (o : O) (id : Option U) : Except BErr ActorM :=
@@ -151,7 +156,7 @@ def newActorFromObject (w : World) (o : O) (id : Option U) : Except BErr ActorM 
   | .ok kind =>
     if !actorKinds.contains kind then .error .wrongType
     else .ok { kind := kind, id := id, name := getString o "name".toList,
-               posts := getCollection w o "outbox".toList id, obj := o }
+               posts := getCollection w o "outbox".toList id, bioLinks := w.links o "summary".toList, obj := o }
 
 def newActor (w : World) (input : JVal) (source : Option U) : Except BErr ActorM :=
   match fetchUnknown w input source with
@@ -185,6 +190,7 @@ structure PostM where
   creators : List AorF
   recipients : List AorF
   comments : Except Err CollM
+  bodyLinks : List Str := []
   obj : O
 
 def creatorOk (id : Option U) : AorF → Bool
@@ -216,7 +222,8 @@ def newPostFromObject (w : World) (o : O) (id : Option U) : Except BErr PostM :=
         | r => r
       if creators.all (creatorOk id) then
         .ok { kind := kind, id := id, title := getString o "name".toList, parent := parent,
-              creators := creators, recipients := recipients, comments := comments, obj := o }
+              creators := creators, recipients := recipients, comments := comments,
+              bodyLinks := w.links o "content".toList, obj := o }
       else .error .other
 
 def newPost (w : World) (input : JVal) (source : Option U) : Except BErr PostM :=
